@@ -214,7 +214,7 @@ for _p, _t in _EXTRA.items():
 # Fifth round of seeded changes (DESIGN §8 round 5).
 _EXTRA5 = {
  "C01": " Fifth round: (R-CTX-1) the context handed to every call is the function's own or a cancellation-keeping derivation of it, and no csvq type implements context.Context — an interrupt reaches the commit; (R-DROP-1) no error result is dropped (expression statement, defer, go; `_ =` for output primitives); (R-PAR-15) fork-join is unconditional. (R-TXN-11) point of no return: in Commit no file-phase call and no failing exit is reachable after the restore points of temporary tables have advanced; Rollback restores them on every exit.",
- "C02": " Fifth round: (R-DROP-1) no error of a writer / flush / close is dropped on the output path (a deferred Flush loses the report that the last buffer could not be encoded).",
+ "C02": " Fifth round: (R-DROP-1) no error of a writer / flush / close is dropped on the output path (a deferred Flush loses the report that the last buffer could not be encoded). (R-FMT-9) under Format = TSV the delimiter that reaches the CSV writer / reader is the constant tab on every path (abstract execution of EncodeView and of the loader).",
  "C03": " Fifth round: (R-PAR-14) the fold of the per-worker record lists equals the concatenation for every shape up to 4 lists × 2 records (abstract execution); (R-NODE-1) the query-level memos of ReferenceScope (resolved paths, frozen NOW) are born in CreateNode only, never with the statement-level scope; (R-VIEW-1) no evaluation sees a view between the replacement of its Header and of its RecordSet.",
  "C04": " Fifth round: R-SRT-5 now also tracks the column layout: a per-cell cache is stale once the Header is replaced (not merely extended), and carrying old entries over into a rebuilt cache does not cure it; (R-CONV-2) zone-less datetime texts are parsed in the session location.",
  "C05": " Fifth round: (R-VIEW-1) Header and RecordSet change back to back (ALTER TABLE ADD evaluates defaults before either); (R-UPD-1) the row index into a target view selected by key is not carried over from the iteration of another key (multi-table UPDATE).",
@@ -227,7 +227,8 @@ _EXTRA5 = {
  "C13": " Fifth round: (R-PAR-15) every go statement is followed, on every path to a return of the starting function, by a synchronous WaitGroup.Wait (directly or through a csvq function that waits on all its paths) — a join raced against ctx.Done() lets workers outlive the call.",
  "C14": " Fifth round: R-DET-2 registered (no hidden state survives from one evaluation to the next).",
  "C17": " Fifth round: (R-IDENT-1) the printed text of an expression is never compared case-insensitively (two analytic functions that differ in the case of a literal are two columns) — genuine defect repaired.",
- "C19": " Fifth round: (R-DROP-1) no error is dropped. Three genuine defects reported by seeding agents and repaired: COUNT(*) over a table without columns (empty file), an aggregate nested in an analytic function over grouped records, `csvq calc` on an expression that makes the query a set operation.",
+ "C18": " Fifth round: (R-POS-1) the Line / Char of a token are loads of the scanner's position made after the rune that starts the token was consumed, with no arithmetic — the EOF token (every 'unexpected termination' error) lies inside the input; (R-ESC-7) a sigil kind accepts a quoted name in the scanner iff its printer quotes (only environment variables).",
+ "C19": " Fifth round: (R-DROP-1) no error is dropped. Three genuine defects reported by seeding agents and repaired: COUNT(*) over a table without columns (empty file), an aggregate nested in an analytic function over grouped records, `csvq calc` on an expression that makes the query a set operation. New rules written for these reports: (R-ERR-19) a constant index into a data-shaped slice (Record, RecordSet, Header, Cell, RowValue) needs len > c shown; (R-ERR-20) an index that ranges over slice A and indexes a data-shaped slice B needs len(B) ≥ len(A); (R-ERR-21) the value of a comma-ok assertion whose ok is dropped does not flow into an unchecked assertion / interface call / dereference; (R-ERR-22) a parser field that is nil-tested anywhere (optional clause) is tested before every unchecked assertion on it. They fire on the parents of the three repairs and surfaced five more crashes on the pinned tree (subqueries, UPDATE / DELETE over a table without columns; `csvq fields` on a non-table argument), all repaired.",
  "C20": " Fifth round: (R-OWN-1) the update handler of a cached table is never closed by a loader; (R-NODE-1) the resolved-path memo does not outlive the query. (R-PATH-1) every success return of the path resolvers yields a cleaned absolute path, so two spellings of one file share one cache entry.",
 }
 for _p, _t in _EXTRA5.items():
